@@ -213,6 +213,22 @@ fn rl_histories(rng: &mut Rng, out: &mut Out, thorough: bool, variant: &str) {
         vec![RlOp::TrySet(5, 3), RlOp::SetLen(MAX)],
         vec![],
     ];
+    // two blocks with no unset bit in front of them (the first run starts at 0 and fills block 0 alone), then nine more
+    // blocks of small runs: every call is accepted, so the vector must build (former defect F8b)
+    let mut fixed = fixed;
+    {
+        let p63 = 1usize << 63;
+        let p60 = 1usize << 60;
+        let mut h = vec![RlOp::TrySet(0, p63 + 1), RlOp::TrySet(p63 + 1 + p60, p60 + 1)];
+        let mut pos = p63 + 1 + p60 + p60 + 1;
+        for _ in 0..(32 * 9) {
+            let gap = 1 + rng.below(7) as usize;
+            let len = 1 + rng.below(7) as usize;
+            h.push(RlOp::TrySet(pos + gap, len));
+            pos += gap + len;
+        }
+        fixed.push(h);
+    }
     for h in fixed {
         let mut bld = RLBuilder::new();
         let mut seen = RlSeen { ops: Vec::new(), trace: Vec::new(), accepted: 0, refused: 0 };
